@@ -18,6 +18,8 @@ func checkC07(c *Ctx, r *Report) {
 	// an embedded struct is composed into its parent (allOf) because it is embedded - nothing else
 	// (its tag, its name) takes part in that decision, in either emitter or in the shared helper
 	defer checkEmbeddingDecision(c, r, "C07.c")
+	// the models the spec is built from are the reduced declarations, not what another generator left in them
+	defer checkNoInPlaceWritesToInputs(c, r, "C07.e", "core/metadata", "generator/swagen", "generator/routes")
 	// ... and none is taken out again: the lists of values, fields and models that were built element
 	// by element are not compacted or filtered afterwards (the spec post-processing only re-orders)
 	defer ruleNoCompaction(c, r, "C07.c", "generator/swagen", "core/metadata", "core/visitors")
